@@ -365,3 +365,36 @@ Proof.
   - destruct (_ && _); [|discriminate]. destruct (bound_field allfs f); [discriminate|]. destruct (size_fields_of allfs f); discriminate.
   - destruct (bound_field allfs f); [discriminate|]. destruct (a_size a); try discriminate. destruct (is_byte_array a); [discriminate|]. destruct (_ && _); discriminate.
 Qed.
+
+Lemma classify_named tm allfs f t : classify tm allfs f = Some (MkNamed t) ->
+  f_cond f = None /\ bound_field allfs f = None /\ is_reserved f = false /\ f_type f = FName t.
+Proof.
+  unfold classify. destruct (f_cond f); [discriminate|]. destruct (is_sizeof f); [discriminate|]. destruct (is_computed f); [discriminate|].
+  destruct (f_type f) as [j|t'|a]; try discriminate.
+  - destruct (it_size j <? 0); [discriminate|]. destruct (is_reserved f).
+    + destruct (f_value f); try discriminate. destruct (bound_field allfs f); discriminate.
+    + destruct (bound_field allfs f) as [g|]; [|discriminate].
+      destruct (f_array g); [|discriminate]. destruct (f_cond g); [discriminate|]. destruct (_ && _); discriminate.
+  - destruct (negb (is_reserved f) && not_abstract tm t') eqn:Hn; [|discriminate].
+    destruct (bound_field allfs f); [discriminate|]. destruct (size_fields_of allfs f); [|discriminate]. intros H; injection H as ->.
+    apply Bool.andb_true_iff in Hn as [Hr _]. apply Bool.negb_true_iff in Hr. repeat split; assumption.
+  - destruct (bound_field allfs f); [discriminate|]. destruct (a_size a); try discriminate. destruct (is_byte_array a); [discriminate|]. destruct (_ && _); discriminate.
+Qed.
+
+Definition int_kind (k : mkind) : option intty :=
+  match k with MkInt i | MkReserved i _ | MkCount i _ => Some i | _ => None end.
+
+Lemma classify_int_kind tm allfs f k i : classify tm allfs f = Some k -> int_kind k = Some i -> f_type f = FInt i /\ f_cond f = None.
+Proof.
+  intros Hk Hi. pose proof (classify_cond tm allfs f k Hk) as Hc. split; [|exact Hc].
+  unfold classify in Hk. rewrite Hc in Hk. destruct (is_sizeof f); [discriminate|]. destruct (is_computed f); [discriminate|].
+  destruct (f_type f) as [j|t|a].
+  - destruct (it_size j <? 0); [discriminate|]. destruct (is_reserved f).
+    + destruct (f_value f); try discriminate. destruct (bound_field allfs f); [discriminate|]. injection Hk as <-. cbn in Hi. congruence.
+    + destruct (bound_field allfs f) as [g|].
+      * destruct (f_array g); [|discriminate]. destruct (f_cond g); [discriminate|]. destruct (_ && _); [|discriminate]. injection Hk as <-. cbn in Hi. congruence.
+      * injection Hk as <-. cbn in Hi. congruence.
+  - destruct (_ && _); [|discriminate]. destruct (bound_field allfs f); [discriminate|]. destruct (size_fields_of allfs f); [|discriminate]. injection Hk as <-. discriminate.
+  - destruct (bound_field allfs f); [discriminate|]. destruct (a_size a); try discriminate. destruct (is_byte_array a); [injection Hk as <-; discriminate|].
+    destruct (_ && _); [|discriminate]. injection Hk as <-. discriminate.
+Qed.
